@@ -61,3 +61,22 @@ Example C05_verifier_rejects :
   wf_progb (mkProg [14; 1; 0; 0; 0; 0]%Z [CVal VNil] []) = false /\
   wf_progb (mkProg [14; 3; 0; 0; 0; 0]%Z [CVal VNil] []) = true.
 Proof. vm_compute. split; reflexivity. Qed.
+
+(* No run of a compiled program ever fails for a machine reason (popping an empty stack, a
+   missing scope, decoding outside an instruction): its outcome is the reference outcome, and the
+   reference semantics never produces the machine class. *)
+Require Import X.Sem.NoMachine X.BC.RunProofs.
+
+Theorem C05_no_machine_failure :
+  forall fe cfg env c e, fn_no_machine fe -> compilable e = true ->
+  exists d0, forall d, (d0 <= d)%nat ->
+    exists r, run_code fe cfg env (compile_program (c_mapenv cfg) c e) d = Some r /\ not_machine r.
+Proof.
+  intros fe cfg env c e Hf Hc.
+  assert (Hl : stop_is_locatable (eval fe cfg env [] e rs0)).
+  { pose proof (eval_no_machine fe cfg env Hf e [] rs0) as H. unfold not_machine, stop_is_locatable in *.
+    destruct (eval fe cfg env [] e rs0) as [v r|er l r]; auto. destruct er; auto; try contradiction. }
+  destruct (run_compiled_program fe cfg env e c Hc Hl) as [d0 H]. exists d0. intros d Hd.
+  exists (run_ref fe cfg env c e). split; [apply H; exact Hd|apply run_ref_no_machine; exact Hf].
+Qed.
+Print Assumptions C05_no_machine_failure.
